@@ -1,5 +1,6 @@
 import JetVerif.Props.C03
 import JetVerif.Props.C03D
+import JetVerif.Props.C03E
 open JetVerif.Props.C03
 open JetVerif.Props.C03D
 #print axioms JetVerif.Lex.lexRun_chain
@@ -9,3 +10,10 @@ open JetVerif.Props.C03D
 #print axioms leftTrimLength_spec
 #print axioms rightTrimLength_spec
 #print axioms dropped_ranges_are_whitespace_markers_or_comments
+#print axioms JetVerif.Props.C03E.text_items_become_text_nodes
+#print axioms JetVerif.Props.C03E.text_nodes_carry_the_items_bytes
+#print axioms JetVerif.Props.C03E.text_statements_write_their_bytes
+#print axioms JetVerif.Props.C03E.action_free_template_renders_its_text
+#print axioms JetVerif.Props.C03E.text_or_eof_items_have_the_shape
+#print axioms JetVerif.Props.C03E.keptSource_eq_token_values
+#print axioms JetVerif.Props.C03E.action_free_output_is_the_source_minus_dropped_ranges
